@@ -2,10 +2,6 @@ package tk
 
 // Additions for the C12 harness (half-close and inspection of an in-memory stream end).
 
-// CloseWrite ends only the sending direction of this end: the peer reads what was written and
-// then EOF; bytes the peer writes are still accepted.
-func (c *SConn) CloseWrite() { c.Out.closeWrite() }
-
 // Closed reports that Close was called on this end.
 func (c *SConn) Closed() bool {
 	c.In.mu.Lock()
